@@ -194,6 +194,27 @@ UpdateViolated(e) ==
           [] n = "C14_ValidUpdateSucceeds" -> C14_ValidUpdateSucceeds(e)
           [] n = "C14_NoOldConfigLaunchedLater" -> C14_NoOldConfigLaunchedLater(e)) }
 
+(***************************************************************************)
+(* C12 while a removal is in flight (records of kind "ordshut"): a         *)
+(* dependent that was alive when the ordered shutdown began - also one     *)
+(* whose configuration entry a scale-down / update has already deleted -   *)
+(* has exited before the process it depends on is signalled.               *)
+(***************************************************************************)
+OrdCmds(e) == RangeS(e.cmds)
+C12_DependentsFirstDuringRemoval(e) ==
+  \A x \in RangeS(e.edges) :
+    \A cp \in { c \in OrdCmds(e) : c.base = x[1] } :
+      \A ck \in { c \in OrdCmds(e) : c.base = x[2] /\ c.sigSeq > e.shutSeq } :
+         (cp.launchSeq < e.shutSeq /\ (cp.exitSeq = 0 \/ cp.exitSeq > e.shutSeq))
+            => (cp.exitSeq > 0 /\ cp.exitSeq < ck.sigSeq)
+C12_ShutdownCompletesDuringRemoval(e) == e.shutReturned /\ e.runReturned
+OrdShutViolated(e) ==
+  { n \in {"C12_DependentsFirstDuringRemoval", "C12_ShutdownCompletesDuringRemoval"} :
+      ~(CASE n = "C12_DependentsFirstDuringRemoval" -> C12_DependentsFirstDuringRemoval(e)
+          [] n = "C12_ShutdownCompletesDuringRemoval" -> C12_ShutdownCompletesDuringRemoval(e)) }
+OrdShutDetail(e) == [mode |-> e.mode, replicas |-> e.replicas, shutSeq |-> e.shutSeq, shutReturned |-> e.shutReturned, runReturned |-> e.runReturned,
+                     cmds |-> { <<c.rname, c.launchSeq, c.sigSeq, c.exitSeq>> : c \in OrdCmds(e) }]
+
 ScaleGateViolated(e) == IF C13_ReleasedAfterDependency(e) THEN {} ELSE {"C13_ReleasedAfterDependency"}
 ScaleDetail(e) ==
   IF e.kind = "scale" THEN [name |-> e.name, n |-> e.n, cur |-> e.cur, err |-> e.err, someFinished |-> e.someFinished, gated |-> e.gated]
